@@ -176,7 +176,7 @@ def project(prop, op, line):
     queues = ["%s q=%s" % (c["name"], c.get("q", "")) for c in C]
     if prop == "C11":   # which request holds which identifier; the allocation cursor
         return repr(([(s["name"], s.get("next"), s.get("ss"), [(e[0], e[1]) for e in s["slotlist"]]) for s in S], [(f[1], f[2]) for f in fwd],
-                     [bytes.fromhex(f[3])[1] for f in fwd]))
+                     [bytes.fromhex(f[3])[1] for f in fwd], [(c["name"], c.get("cache")) for c in C]))
     if prop == "C10":   # duplicate cache, reply queue, whether something was forwarded, replayed bytes
         return repr((ret, [f[1] for f in fwd], [(c["name"], c.get("cache"), c.get("q")) for c in C], outs))
     if prop == "C12":   # transmissions, retry bookkeeping, loss counters, wait bound
